@@ -498,7 +498,7 @@ function getStoreKeyChunkForArgumentValue(
       return argumentValue.value;
     }
     case 'Variable': {
-      return variables[argumentValue.name] ?? 'null';
+      return variables[argumentValue.name] ?? null;
     }
     case 'String': {
       return argumentValue.value;
